@@ -398,13 +398,6 @@ func c19Round(st *c19State, dir string, seed int64) {
 
 	guarded("client goroutines after Close", 180*time.Second, func() { <-wgDone })
 
-	for _, cn := range idle {
-		// the server must have hung up on them
-		res := cn.Cmd("NOOP")
-		st.outcome(fmt.Sprintf("never-logged-in connection after Close: answered=%v", res.Err == nil && !res.Bye))
-		cn.Close()
-	}
-
 	// goroutines: poll (bounded) until back at the base level
 	var now int
 
@@ -418,8 +411,12 @@ func c19Round(st *c19State, dir string, seed int64) {
 	}
 
 	if now > base {
-		os.Stdout.WriteString(fmt.Sprintf("LEAK %d goroutines 15 s after Close, %d before the server was created\n%s\n", now, base, allStacks()))
+		os.Stdout.WriteString(fmt.Sprintf("LEAK %d goroutines 15 s after Close, %d before the server was created (%d connections that never logged in are still open on the client side)\n%s\n", now, base, len(idle), allStacks()))
 		os.Exit(0)
+	}
+
+	for _, cn := range idle {
+		cn.Close()
 	}
 
 	if p := s.Panics(); len(p) > 0 {
